@@ -126,53 +126,6 @@ def _find_assign(f, name):
     return out
 
 
-def r2(repo, res):
-    wf, wc, w = writer_tuple(repo)
-    rf, rn, r = reader_tuple(repo)
-    funcs = {"Counter": collections.Counter, "collections.Counter": collections.Counter}
-    samples = {
-        "norm": {5: [(40, 40), (40, 40), (25, 6)], 6: [(40, 40)], 7: []},
-        "muts": {(5, "A>G"): [(40, 40), (40, 35), (40, 40)], (9, "insT"): [(10, 6)]},
-    }
-    for i in (3, 4):
-        comp = root(w[i])
-        data = samples.get(comp, samples["norm"])
-        try:
-            stored = Evaluator({comp: data}, funcs=funcs).ev(w[i])
-            rdef = _find_assign(rf, root(r[i]))
-            rdef = [d for d in rdef if d is not rn]
-            if not rdef:
-                res.ob("C17.R2", rf, rn, False, expected=f"reader decodes `{root(r[i])}`", found="no decoding assignment",
-                       key=f"codec:{comp}")
-                continue
-            back = Evaluator({root(r[i]): stored}).ev(rdef[-1].value)
-        except (Unfoldable, Raised) as e:
-            res.err("C17.R2", f"codec for `{comp}` is outside the folding language: {e}")
-            continue
-        same = (set(back) >= {k for k, v in data.items() if v} and
-                all(sorted(back.get(k, [])) == sorted(v) for k, v in data.items()))
-        res.ob("C17.R2", rf, rdef[-1], same,
-               expected="decode(encode(table)) == table as a multiset per key",
-               found="round trip ok" if same else f"{data} -> {dict(stored)} -> {back}",
-               clause="per-position counters are restored", key=f"codec:{comp}")
-    # phases
-    ph = {"a": {1: "_"}, "b": {1: "_", 2: "A>G"}, "c": {3: "T>C", 4: "_"}}
-    try:
-        stored = Evaluator({"self.phases": ph}).ev(w[5])
-        pdef = _find_assign(rf, "self.phases")
-        if not pdef:
-            res.ob("C17.R2", rf, rn, False, expected="reader restores self.phases", found="no assignment", key="codec:phases")
-        else:
-            back = Evaluator({root(r[5]): stored}).ev(pdef[-1].value)
-            want = [v for v in ph.values() if len(v) > 1]
-            ok = list(back.values()) == want and len(set(back)) == len(back)
-            res.ob("C17.R2", rf, pdef[-1], ok,
-                   expected="every multi-site phase record is restored, in order, under distinct keys",
-                   found="round trip ok" if ok else f"{ph} -> {stored} -> {back}", key="codec:phases")
-    except (Unfoldable, Raised) as e:
-        res.err("C17.R2", f"phase codec is outside the folding language: {e}")
-
-
 def r3(repo, res):
     wf, wc, w = writer_tuple(repo)
     dumped = {root(e) for e in w}
@@ -508,6 +461,9 @@ def r7(repo, res):
         io = {"open": lambda *a, **k: Obj(kind="text"), "gzip.open": lambda *a, **k: Obj(kind="gz"), "print": pr,
               "pickle.dump": lambda o, fd: store.__setitem__("o", copy.deepcopy(o)), "pickle.load": lambda fd: copy.deepcopy(store["o"]),
               "Counter": collections.Counter, "collections.Counter": collections.Counter, "os.path.abspath": lambda q: q}
+        from sa.fold import lift_module_helpers
+
+        lift_module_helpers(repo.mod("sam").tree, io, None, {}, {})   # module-level helpers of sam.py the writer / reader may call
         try:
             norm, muts, me = state(support)
             # sample attributes the constructor derives from the input file: an undetectable genome build is (kind, None)
@@ -559,7 +515,6 @@ def run(repo, res):
     r6(repo, res)
     r7(repo, res)
     r1(repo, res)
-    r2(repo, res)
     r3(repo, res)
     r4(repo, res)
 
@@ -571,7 +526,7 @@ MUTANTS = [
          old="            coverage.setdefault(pos, {}).setdefault(mut, []).extend(cov)", new="            coverage.setdefault(pos, {}).setdefault(mut, []).extend(cov)\n            cov.clear()"),
     dict(name="R7 writer keeps supported indels only (seeded C17_b2 shape)", module="sam", expect="C17.R7",
          old="                    self._indel_sites,  # TODO: remove", new="                    {k: v for k, v in self._indel_sites.items() if v[1]},"),
-    dict(name="R7 reader restores qualities without multiplicity", module="sam", expect=["C17.R7", "C17.R2"],
+    dict(name="R7 reader restores qualities without multiplicity", module="sam", expect="C17.R7",
          old="        norm = {p: [q for q, n in c.items() for _ in range(n)] for p, c in norm.items()}", new="        norm = {p: [q for q, n in c.items()] for p, c in norm.items()}"),
     dict(name="R7 genome marker from the detected build (seeded C17_b1 shape)", module="sam", expect="C17.R7",
          edits=[("self.kind, _ = detect_genome(path)\n            self.genome = gene.genome", "self.kind, self.genome = detect_genome(path)"),
@@ -596,12 +551,12 @@ MUTANTS = [
          new="                    self._indel_sites,"),
     dict(name="R1+R3 fusion counters dropped on both sides", module="sam", expect="C17.R3",
          old="self._fusion_counter,\n", new="", count=2),
-    dict(name="R2 writer stores set (loses multiplicity)", module="sam", expect="C17.R2",
+    dict(name="R2 writer stores set (loses multiplicity)", module="sam", expect="C17.R7",
          old="{p: Counter(q) for p, q in norm.items()},", new="{p: Counter(set(q)) for p, q in norm.items()},"),
-    dict(name="R2 reader ignores counts", module="sam", expect="C17.R2",
+    dict(name="R2 reader ignores counts", module="sam", expect="C17.R7",
          old="muts = {p: [q for q, n in c.items() for _ in range(n)] for p, c in muts.items()}",
          new="muts = {p: [q for q, n in c.items()] for p, c in muts.items()}"),
-    dict(name="R2 phases keyed by constant (collide)", module="sam", expect="C17.R2",
+    dict(name="R2 phases keyed by constant (collide)", module="sam", expect="C17.R7",
          old='self.phases = {f"r{i}": v for i, v in enumerate(phases)}', new='self.phases = {"r": v for i, v in enumerate(phases)}'),
     dict(name="R3 stage reads an undumped attribute", module="cn", expect="C17.R3",
          old="        if coverage.sam._fusion_counter:", new="        if coverage.sam._fusion_counter and coverage.sam._dump_reads:"),
